@@ -73,6 +73,10 @@ func (g *Graph) GetVertex(key string, load bool) *gdbi.Vertex {
 	}
 	table := parts[0]
 	id := parts[1]
+	//the table part of the id becomes part of the statement: only configured vertex tables
+	if g.schema.GetVertex(table) == nil {
+		return nil
+	}
 	gidField := g.schema.GetVertexGid(table)
 	q := fmt.Sprintf("SELECT * FROM %s WHERE %s=%s", table, gidField, id)
 	data := make(map[string]interface{})
@@ -304,6 +308,10 @@ func (g *Graph) GetVertexChannel(ctx context.Context, reqChan chan gdbi.ElementL
 			continue
 		}
 		table := parts[0]
+		//the table part of the id becomes part of the statement: only configured vertex tables
+		if g.schema.GetVertex(table) == nil {
+			continue
+		}
 		batches[table] = append(batches[table], elem)
 	}
 
